@@ -19,10 +19,11 @@ def main():
         if r.returncode != 0:
             res['apply_error'] = r.stderr[-500:]
             return res
-        r = sh('cd {} && PYTHONPATH={}/src /venv/bin/python -m pytest -q -p no:cacheprovider --timeout=900 2>&1 | tail -1'.format(wt, wt))
+        fast = '--fast' in sys.argv
+        r = sh('true') if fast else sh('cd {} && PYTHONPATH={}/src /venv/bin/python -m pytest -q -p no:cacheprovider --timeout=900 2>&1 | tail -1'.format(wt, wt))
         res['tests'] = r.stdout.strip()
         res['tests_pass'] = '50 passed' in r.stdout
-        if os.path.exists(seed + '/demo.py'):
+        if os.path.exists(seed + '/demo.py') and not fast:
             r = sh('cd {} && PYTHONPATH={}/src timeout 300 /venv/bin/python {}/demo.py'.format(wt, wt, seed)); res['demo_with_change'] = r.returncode
             r = sh('cd /repo && PYTHONPATH=/repo/src timeout 300 /venv/bin/python {}/demo.py'.format(seed)); res['demo_without_change'] = r.returncode
         props = [pid] if not allp else ['C%02d' % i for i in range(1, 21)]
